@@ -27,7 +27,10 @@ def expr_from_json(j):
         return expr.Scal(j["scalar"], val)
     if "get" in j: return expr.Get(expr_from_json(j["get"]), [tuple(it) for it in j["items"]], j.get("tuple", True))
     if "mask" in j: return expr.Mask(expr_from_json(j["mask"]), j["rows"])
-    if "op" in j: return expr.Op(j["op"], [expr_from_json(a) for a in j["args"]], j.get("ia", []))
+    if "op" in j:
+        e = expr.Op(j["op"], [expr_from_json(a) for a in j["args"]], j.get("ia", []))
+        if j.get("int_index"): e.int_index = True
+        return e
     raise ValueError("unknown expression node %r" % (list(j)[:3],))
 
 def run(pid, path):
